@@ -21,6 +21,7 @@ import (
 	"fmt"
 	"go/ast"
 	"go/token"
+	"sort"
 	"strings"
 
 	"verifextract/ex"
@@ -247,6 +248,61 @@ func (s *sk) ifStmt(d int, kind string, st *ast.IfStmt) {
 	}
 }
 
+// canon: the role names of the locals (receiver, parameters, results, labels, variables) of each
+// pinned function, in order of declaration — the names they have in the pinned transcription.  The
+// k-th declared local is printed under the k-th name whatever it is called in the source, so that
+// renaming a local does not change the skeleton (adding or removing one shifts the roles and does).
+var canon = map[string][]string{
+	"render": {"vx", "reposition", "cursor", "outerLast", "p1", "p2", "outerNew", "p1", "p2", "row", "dirty", "col", "next", "end", "skip", "i", "end",
+		"fg", "ps", "bg", "ps", "ul", "ps", "attr", "dAttr", "on", "off", "ulStyle", "link", "linkPs", "skip", "i", "end"},
+	"showCursor":  {"vx", "buf"},
+	"advance":     {"vx", "cell", "w"},
+	"Write":       {"w", "p", "n", "err"},
+	"WriteString": {"w", "s", "n", "err"},
+	"Flush":       {"w", "n", "err"},
+}
+
+// normalise renames, in place, every identifier that refers to a local of fd (go/parser's object
+// resolution) to its role name.  Only used on a separately parsed copy of the file.
+func normalise(fd *ast.FuncDecl) {
+	if fd == nil {
+		return
+	}
+	seen := map[*ast.Object]bool{}
+	var objs []*ast.Object
+	ast.Inspect(fd, func(n ast.Node) bool {
+		id, ok := n.(*ast.Ident)
+		if !ok || id.Obj == nil || id.Name == "_" {
+			return true
+		}
+		o := id.Obj
+		if o.Pos() < fd.Pos() || o.Pos() >= fd.End() || seen[o] {
+			return true
+		}
+		seen[o] = true
+		objs = append(objs, o)
+		return true
+	})
+	sort.Slice(objs, func(i, j int) bool { return objs[i].Pos() < objs[j].Pos() })
+	names := canon[fd.Name.Name]
+	role := map[*ast.Object]string{}
+	for k, o := range objs {
+		if k < len(names) {
+			role[o] = names[k]
+		} else {
+			role[o] = fmt.Sprintf("L%d", k)
+		}
+	}
+	ast.Inspect(fd, func(n ast.Node) bool {
+		if id, ok := n.(*ast.Ident); ok && id.Obj != nil {
+			if r, ok := role[id.Obj]; ok {
+				id.Name = r
+			}
+		}
+		return true
+	})
+}
+
 func skeleton(c *ex.Ctx, fd *ast.FuncDecl) []line {
 	s := &sk{c: c}
 	if fd == nil || fd.Body == nil {
@@ -354,13 +410,26 @@ func gen(c *ex.Ctx) {
 	}
 	c.Errs = nil // a parse failure is reported through extractErrors; the file is always written
 
-	sb.WriteString("/-! Statement skeletons: (nesting depth, kind, text) in source order. -/\n")
-	sb.WriteString(leanLines("render", skeleton(c, render)))
-	sb.WriteString(leanLines("showCursor", skeleton(c, showCursor)))
-	sb.WriteString(leanLines("advance", skeleton(c, advance)))
-	sb.WriteString(leanLines("writerWrite", skeleton(c, wWrite)))
-	sb.WriteString(leanLines("writerWriteString", skeleton(c, wWriteString)))
-	sb.WriteString(leanLines("writerFlush", skeleton(c, wFlush)))
+	// the skeletons are printed from a second parse of the files in which the locals carry their
+	// role names (the tables below read the original names)
+	var renderN, wWriteN, wWriteStringN, wFlushN, showCursorN, advanceN *ast.FuncDecl
+	if vn := c.Parse("vaxis.go"); vn != nil {
+		renderN, showCursorN, advanceN = ex.FindFunc(vn, "Vaxis", "render"), ex.FindFunc(vn, "Vaxis", "showCursor"), ex.FindFunc(vn, "Vaxis", "advance")
+	}
+	if wn := c.Parse("writer.go"); wn != nil {
+		wWriteN, wWriteStringN, wFlushN = ex.FindFunc(wn, "writer", "Write"), ex.FindFunc(wn, "writer", "WriteString"), ex.FindFunc(wn, "writer", "Flush")
+	}
+	for _, fd := range []*ast.FuncDecl{renderN, showCursorN, advanceN, wWriteN, wWriteStringN, wFlushN} {
+		normalise(fd)
+	}
+	c.Errs = nil
+	sb.WriteString("/-! Statement skeletons: (nesting depth, kind, text) in source order; locals under their role names. -/\n")
+	sb.WriteString(leanLines("render", skeleton(c, renderN)))
+	sb.WriteString(leanLines("showCursor", skeleton(c, showCursorN)))
+	sb.WriteString(leanLines("advance", skeleton(c, advanceN)))
+	sb.WriteString(leanLines("writerWrite", skeleton(c, wWriteN)))
+	sb.WriteString(leanLines("writerWriteString", skeleton(c, wWriteStringN)))
+	sb.WriteString(leanLines("writerFlush", skeleton(c, wFlushN)))
 
 	// tables
 	var on [][2]string
